@@ -239,6 +239,11 @@ impl<'builder> Builder<'builder> {
         let s = match self.s {
             Some(k) => {
                 (*s_dh).set(k);
+                // A private key the DH function cannot use (e.g. an out-of-range P-256 scalar)
+                // yields no public key of the right length.
+                if s_dh.pubkey().len() != s_dh.pub_len() {
+                    return Err(InitStage::ValidateKeyLengths.into());
+                }
                 Toggle::on(s_dh)
             },
             None => Toggle::off(s_dh),
@@ -246,6 +251,9 @@ impl<'builder> Builder<'builder> {
 
         if let Some(fixed_k) = self.e_fixed {
             (*e_dh).set(fixed_k);
+            if e_dh.pubkey().len() != e_dh.pub_len() {
+                return Err(InitStage::ValidateKeyLengths.into());
+            }
         }
         let e = Toggle::off(e_dh);
 
